@@ -37,6 +37,24 @@ ERR = {1: "accepted/rejected differs from the model", 2: "before image differs f
        21: "arguments of the before-image query differ from the model's selection"}
 
 
+# what a listed finding is allowed to look like: any OTHER failure of a statement inside the region is a violation
+FINDING_SIG = {
+    "upsert.pk-listed.unique-changed": ("after image rows [] differ",),
+    "insert.pk-null-or-zero": ("rows were matched/inserted but no image was recorded", "after image rows [", "the statement panicked"),
+    "insert.auto-batch": ("the statement panicked",),
+}
+
+
+def unexplained(r, preds):
+    """oracle messages of a statement that no listed finding accounts for"""
+    if not r["oracle"]:
+        return []
+    if r["pred"] and r["pred"] in preds:
+        sig = FINDING_SIG.get(r["pred"], ())
+        return [m for m in r["oracle"] if not any(m.startswith(x) for x in sig)]
+    return r["oracle"]
+
+
 def tracked(meta, sm):
     n = len(meta["cols"])
     if sm["kind"] in ("delete", "upsert"):
@@ -221,13 +239,14 @@ def run(chk, only=None):
     # ---- direct oracle
     seen = set()
     for ci, si, r in recs:
-        if r["oracle"] and not (r["pred"] and r["pred"] in preds):
-            key = r["oracle"][0][:50]
+        bad = unexplained(r, preds)
+        if bad:
+            key = bad[0][:50]
             if key in seen:
                 continue
             seen.add(key)
-            chk.violation("C18 fails on the real code: " + "; ".join(r["oracle"][:3]),
-                          dict(U.slim_case(cases[ci]), failing_statement=si, oracle=r["oracle"][:6]), True)
+            chk.violation("C18 fails on the real code: " + "; ".join(bad[:3]),
+                          dict(U.slim_case(cases[ci]), failing_statement=si, oracle=bad[:6]), True)
     # ---- correspondence inside Coq (every statement outside the finding regions)
     irecs = [(ci, si, r) for ci, si, r in recs if r["icase"] and not r["pred"]]
     arecs = [(ci, si, r) for ci, si, r in recs if r["acase"] and not r["pred"]]
@@ -283,7 +302,7 @@ def run(chk, only=None):
         "statements": len(recs),
         "statement_cases_in_coq": len(irecs), "argument_cases_in_coq": len(arecs),
         "traces_validated_against_impl": len(irecs) - len(mism) + len(arecs) - len(amism),
-        "oracle_failures_outside_findings": sum(1 for _, _, r in recs if r["oracle"] and not (r["pred"] and r["pred"] in preds)),
+        "oracle_failures_outside_findings": sum(1 for _, _, r in recs if unexplained(r, preds)),
         "finding_stream_statements": sum(1 for _, _, r in recs if r["pred"]),
         "input_distribution": dist,
         "harness_seconds": round(secs, 2),
